@@ -247,12 +247,21 @@ def check_string(field, s, out):
             return [('string:&', '& shows %r for %r' % (out[:40], s[:40]))]
         return []
     if field.kind == '!':
-        # the first character; for the empty string the statement pins nothing: blank or nothing accepted
-        ok = (out == s[:1]) if s else (out in (b' ', b''))
-        if not ok:
-            return [('string:!', '! shows %r for %r' % (out[:40], s[:40]))]
+        # a field of width one: the first character, one blank for the empty string (like any string
+        # field it emits exactly its declared width)
+        if out != s[:1].ljust(1, b' '):
+            return [('string:!', '! shows %r (%d characters) for %r' % (out[:40], len(out), s[:40]))]
         return []
     w = field.inner + 2
     if out != s[:w].ljust(w, b' '):
         return [('string:backslash', 'field of %d shows %r for %r' % (w, out[:60], s[:60]))]
     return []
+
+
+def declared_width(field, arg):
+    """Characters a field emits when its argument fits: the declared width; for & the argument's length."""
+    if isinstance(field, StrField):
+        if field.kind == '&':
+            return len(arg)
+        return 1 if field.kind == '!' else field.inner + 2
+    return field.width
